@@ -26,7 +26,69 @@ import IrisVerif.Model.Spans
 namespace IrisVerif.Series
 open IrisVerif.Dates
 
-abbrev Cell := Option Rat
+/-- an observed IEEE value: a finite number (kept as an exact rational) or ±∞. NaN is *not* a value: it is the missing
+cell `none`. Only NaN is missing — an infinite value is observed, is never trimmed and reads back as it was written. -/
+inductive Num where
+  | fin (q : Rat)
+  | pinf
+  | ninf
+  deriving Repr, DecidableEq, Inhabited
+
+instance (n : Nat) : OfNat Num n := ⟨.fin (n : Rat)⟩
+
+abbrev Cell := Option Num
+
+namespace Num
+
+def neg : Num → Num
+  | .fin q => .fin (-q)
+  | .pinf => .ninf
+  | .ninf => .pinf
+
+/-- the sign as -1, 0, 1 -/
+def sgn : Num → Int
+  | .fin q => if q < 0 then -1 else if q = 0 then 0 else 1
+  | .pinf => 1
+  | .ninf => -1
+
+/-- IEEE addition: `inf + (-inf)` is NaN -/
+def add : Num → Num → Cell
+  | .fin a, .fin b => some (.fin (a + b))
+  | .pinf, .ninf => none
+  | .ninf, .pinf => none
+  | .pinf, _ => some .pinf
+  | _, .pinf => some .pinf
+  | .ninf, _ => some .ninf
+  | _, .ninf => some .ninf
+
+def sub (x y : Num) : Cell := x.add y.neg
+
+/-- IEEE multiplication: `0 * inf` is NaN -/
+def mul : Num → Num → Cell
+  | .fin a, .fin b => some (.fin (a * b))
+  | x, y => if x.sgn * y.sgn = 0 then none else if x.sgn * y.sgn > 0 then some .pinf else some .ninf
+
+/-- division by a positive count (`mean`) -/
+def divNat : Num → Nat → Num
+  | .fin q, n => .fin (q / (n : Rat))
+  | x, _ => x
+
+def lt : Num → Num → Bool
+  | .fin a, .fin b => decide (a < b)
+  | .ninf, .ninf => false
+  | .ninf, _ => true
+  | _, .ninf => false
+  | .pinf, _ => false
+  | _, .pinf => true
+
+def le (x y : Num) : Bool := !(y.lt x)
+
+def abs : Num → Num
+  | .fin q => .fin (if q < 0 then -q else q)
+  | _ => .pinf
+
+end Num
+
 abbrev Row := List Cell
 
 structure Series where
@@ -183,12 +245,22 @@ inductive VarArg where
   | all
   | one (c : Int)
   | list (l : List Int)
+  | slice (a b : Option Int)        -- `slice(a, b)`: `range(*slice.indices(num_variants))`
   deriving Repr, DecidableEq
+
+/-- one end of `slice.indices(n)` for step 1: negative ends count from the back, everything is clamped to `[0, n]` -/
+def sliceEnd (n : Nat) (dflt : Int) : Option Int → Int
+  | none => dflt
+  | some x => if x < 0 then max (x + n) 0 else min x n
 
 def resolveVariants (nv : Nat) : VarArg → List Int
   | .all => (List.range nv).map (fun (i : Nat) => (i : Int))
   | .one c => [c]
   | .list l => l
+  | .slice a b =>
+    let lo := sliceEnd nv 0 a
+    let hi := sliceEnd nv nv b
+    (List.range (hi - lo).toNat).map (fun (i : Nat) => lo + (i : Int))
 
 /-- `set_data(dates, data, variants)` on serials of the series' own frequency -/
 def Series.setData (s : Series) (serials : List Int) (data : DataArg) (vids : List Int) : R Series :=
@@ -402,7 +474,8 @@ def Series.recreateP (s : Series) (ps : List Period) (vars : VarArg) : R Series 
   let data ← s.getDataP ps vars
   let n := (resolveVariants s.nv vars).length
   let new := Series.new s.freq n
-  new.setDataP ps (.array (transpose n data)) .all
+  if n = 0 then pure new            -- a block without columns: `set_data` writes nothing and `trim()` resets the zero-size data
+  else new.setDataP ps (.array (transpose n data)) .all
 
 def Series.clipP (s : Series) (a b : Option Period) : R Series := do
   let chk : Option Period → R (Option Int) := fun p => match p with
@@ -500,34 +573,35 @@ inductive StatFn where
   deriving Repr, DecidableEq
 
 /-- the non-missing values of a row, or `none` when any cell is missing (NaN propagates through `np.sum/prod/mean/min/max`) -/
-def strictVals : List Cell → Option (List Rat)
+def strictVals : List Cell → Option (List Num)
   | [] => some []
   | none :: _ => none
   | some x :: rest => (strictVals rest).map (fun l => x :: l)
 
 /-- the non-missing values of a row (what the `nan*` functions see) -/
-def obsVals (r : List Cell) : List Rat := r.filterMap id
+def obsVals (r : List Cell) : List Num := r.filterMap id
 
-def sumQ (l : List Rat) : Rat := l.foldr (· + ·) 0
-def prodQ (l : List Rat) : Rat := l.foldr (· * ·) 1
-def minQ : List Rat → Option Rat
+/-- sums and products of observed values can still be NaN (`inf - inf`, `0 * inf`) -/
+def sumQ (l : List Num) : Cell := l.foldr (fun x acc => acc.bind (fun a => x.add a)) (some 0)
+def prodQ (l : List Num) : Cell := l.foldr (fun x acc => acc.bind (fun a => x.mul a)) (some 1)
+def minQ : List Num → Cell
   | [] => none
-  | x :: xs => some (xs.foldr (fun a b => if a < b then a else b) x)
-def maxQ : List Rat → Option Rat
+  | x :: xs => some (xs.foldr (fun a b => if a.lt b then a else b) x)
+def maxQ : List Num → Cell
   | [] => none
-  | x :: xs => some (xs.foldr (fun a b => if a > b then a else b) x)
-def meanQ (l : List Rat) : Option Rat := if l.isEmpty then none else some (sumQ l / (l.length : Rat))
+  | x :: xs => some (xs.foldr (fun a b => if b.lt a then a else b) x)
+def meanQ (l : List Num) : Cell := if l.isEmpty then none else (sumQ l).map (fun x => x.divNat l.length)
 
 /-- one row → one cell. `nansum` / `nanprod` of an all-missing row are 0 / 1, `nanmean/nanmin/nanmax` are NaN -/
 def StatFn.eval (f : StatFn) (r : List Cell) : Cell :=
   match f with
-  | .sum => (strictVals r).map sumQ
-  | .prod => (strictVals r).map prodQ
+  | .sum => (strictVals r).bind sumQ
+  | .prod => (strictVals r).bind prodQ
   | .mean => (strictVals r).bind meanQ
   | .min => (strictVals r).bind minQ
   | .max => (strictVals r).bind maxQ
-  | .nansum => some (sumQ (obsVals r))
-  | .nanprod => some (prodQ (obsVals r))
+  | .nansum => sumQ (obsVals r)
+  | .nanprod => prodQ (obsVals r)
   | .nanmean => meanQ (obsVals r)
   | .nanmin => minQ (obsVals r)
   | .nanmax => maxQ (obsVals r)
@@ -547,9 +621,9 @@ inductive MovFn where
 /-- `func(window, axis=2)` for one window (oldest value first); a missing value makes the result missing -/
 def MovFn.eval (f : MovFn) (w : List Cell) : Cell :=
   match f with
-  | .sum => (strictVals w).map sumQ
+  | .sum => (strictVals w).bind sumQ
   | .avg => (strictVals w).bind meanQ
-  | .prod => (strictVals w).map prodQ
+  | .prod => (strictVals w).bind prodQ
 
 /-- `_get_default_moving_window()` -/
 def Series.defaultWindow (s : Series) : Int :=
@@ -601,7 +675,9 @@ def fillAt (m : FillMethod) (col : List Cell) (i : Nat) : Cell :=
     match prevObs col i, nextObs col i with
     | some p, some n =>
       (match colAt col p, colAt col n with
-       | some a, some b => some (a + (b - a) * (((i : Rat) - (p : Rat)) / ((n : Rat) - (p : Rat))))
+       | some a, some b =>
+         -- `previous_value + (next_value - previous_value) * ((i - prev) / (next - prev))`
+         (b.sub a).bind (fun d => (d.mul (.fin (((i : Rat) - (p : Rat)) / ((n : Rat) - (p : Rat))))).bind (fun e => a.add e))
        | _, _ => none)
     | some p, none => colAt col p
     | none, some n => colAt col n
@@ -624,12 +700,12 @@ inductive TestFn where
 
 /-- `test(data)` cell by cell (comparisons with NaN are False, except `!=`) -/
 def TestFn.eval : TestFn → Cell → Bool
-  | .lt c, some x => decide (x < c)
-  | .le c, some x => decide (x ≤ c)
-  | .gt c, some x => decide (x > c)
-  | .ge c, some x => decide (x ≥ c)
-  | .eq c, some x => decide (x = c)
-  | .ne c, some x => decide (x ≠ c)
+  | .lt c, some x => x.lt (.fin c)
+  | .le c, some x => x.le (.fin c)
+  | .gt c, some x => (Num.fin c).lt x
+  | .ge c, some x => (Num.fin c).le x
+  | .eq c, some x => decide (x = .fin c)
+  | .ne c, some x => decide (x ≠ .fin c)
   | .ne _, none => true
   | .isnan, none => true
   | _, _ => false
@@ -644,7 +720,9 @@ def Series.replaceWhere (t : TestFn) (new : Cell) (s : Series) : Series :=
 A missing value among the `p` lags makes the result missing (NaN runs through `lfiltic`/`lfilter`). -/
 def arStep (coeffs : List Rat) (c : Rat) (hist : List Cell) : Cell :=
   if hist.length < coeffs.length then none
-  else (strictVals (hist.take coeffs.length)).map (fun xs => sumQ (List.zipWith (· * ·) coeffs xs) + c)
+  else (strictVals (hist.take coeffs.length)).bind (fun xs =>
+    ((List.zipWith (fun (r : Rat) (x : Num) => (Num.fin r).mul x) coeffs xs).foldr
+      (fun t acc => acc.bind (fun a => t.bind (fun y => y.add a))) (some 0)).bind (fun sm => sm.add (.fin c)))
 
 /-- `n` steps of the recursion, each new value becoming the most recent lag of the next -/
 def arRun (coeffs : List Rat) (c : Rat) : Nat → List Cell → List Cell
@@ -682,21 +760,21 @@ inductive CmpFn where | gt | lt | ge | le | eq | ne
 inductive UnFn where | neg | pos | abs
   deriving Repr, DecidableEq
 
-def BinFn.op : BinFn → Rat → Rat → Rat
-  | .add, x, y => x + y
-  | .sub, x, y => x - y
-  | .mul, x, y => x * y
+def BinFn.op : BinFn → Num → Num → Cell
+  | .add, x, y => x.add y
+  | .sub, x, y => x.sub y
+  | .mul, x, y => x.mul y
 
-/-- IEEE semantics of `+ - *` on cells: NaN-strict -/
+/-- IEEE semantics of `+ - *` on cells: NaN-strict; two observed values give NaN only for `inf - inf` and `0 * inf` -/
 def BinFn.eval (f : BinFn) : Cell → Cell → Cell
-  | some x, some y => some (f.op x y)
+  | some x, some y => f.op x y
   | _, _ => none
 
-def CmpFn.op : CmpFn → Rat → Rat → Bool
-  | .gt, x, y => decide (x > y)
-  | .lt, x, y => decide (x < y)
-  | .ge, x, y => decide (x ≥ y)
-  | .le, x, y => decide (x ≤ y)
+def CmpFn.op : CmpFn → Num → Num → Bool
+  | .gt, x, y => y.lt x
+  | .lt, x, y => x.lt y
+  | .ge, x, y => y.le x
+  | .le, x, y => x.le y
   | .eq, x, y => decide (x = y)
   | .ne, x, y => decide (x ≠ y)
 
@@ -706,9 +784,9 @@ def CmpFn.eval (f : CmpFn) : Cell → Cell → Cell
   | _, _ => some (if f = .ne then 1 else 0)
 
 def UnFn.eval : UnFn → Cell → Cell
-  | .neg, c => c.map (fun x => -x)
+  | .neg, c => c.map Num.neg
   | .pos, c => c
-  | .abs, c => c.map (fun x => if x < 0 then -x else x)
+  | .abs, c => c.map Num.abs
 
 inductive DataSrc where
   | lit (d : DataArg)
